@@ -351,4 +351,34 @@ theorem toRemote_sent (wall : Int → Int) (s : Pair) (hs : SrcOk s.a) (e : Edge
   · intro c hc ⟨d, hm⟩
     exact hS.kids d c hc (hdepth _ _ _ hm) hm
 
+/-! ### a node missing DOWNSTREAM: `sendNodesLocal` lists the children in the local store -/
+
+theorem getNodes_no_kids (src : St) (p : Bytes) (hp1 : p ≠ rootS) (hp2 : p ≠ allS) (h : ∀ e ∈ src.edges, e.up ≠ p) :
+    getNodes src p allS false = [] := by
+  rw [getNodes_live src p hp1 hp2]
+  have : (liveEdges src).filter (fun e => e.up == p) = [] := by
+    rw [List.filter_eq_nil_iff]
+    intro e he
+    have := h e (liveEdges_mem src e he)
+    simpa using this
+  rw [this]; rfl
+
+/-- `sendNodesLocal` of a node whose id has no children in the LOCAL store (it is being created there) is `SendNode` of
+    that node alone: the children upstream are not looked at -/
+theorem toLocal_one_level (wall : Int → Int) (s : Pair) (n : NE) (hn2 : n.id ≠ rootS) (hn3 : n.id ≠ allS)
+    (h : ∀ e ∈ s.a.edges, e.up ≠ n.id) :
+    toLocal wall s n = { s with a := sendNodeState s.a n (wall s.clk), clk := s.clk + 1 } := by
+  unfold toLocal sendNodes
+  simp only []
+  rw [sendNodesAux]
+  simp only []
+  cases hsn : sendNode s.a n (wall s.clk) with
+  | none => rfl
+  | some st1 =>
+    simp only []
+    rw [getNodes_no_kids s.a n.id hn2 hn3 h]
+    simp only [List.foldl_nil]
+    have : sendNodeState s.a n (wall s.clk) = st1 := by unfold sendNodeState; rw [hsn]
+    rw [this]
+
 end Siot.Sync
